@@ -1255,7 +1255,7 @@ class Context:
                 if isinstance(v, (int, float)):
                     # Number::toString, not the host's repr; NaN and the
                     # infinities have no JSON form and print as null
-                    return to_string(v) if math.isfinite(v) else "null"
+                    return to_string(v) if math.isfinite(to_number(v)) else "null"
                 if isinstance(v, str):
                     return quote(v)
                 if not isinstance(v, JSObject) or isinstance(v, JSCallableObject):
@@ -1342,18 +1342,20 @@ class Context:
             # Number.isNaN only returns true for actual NaN
             if not isinstance(x, (int, float)):
                 return False
-            return math.isnan(x)
+            return isinstance(x, float) and math.isnan(x)
 
         def isFinite_fn(*args):
             x = args[0] if args else UNDEFINED
             if not isinstance(x, (int, float)):
                 return False
+            x = to_number(x)
             return not (math.isnan(x) or math.isinf(x))
 
         def isInteger_fn(*args):
             x = args[0] if args else UNDEFINED
             if not isinstance(x, (int, float)):
                 return False
+            x = to_number(x)
             if math.isnan(x) or math.isinf(x):
                 return False
             return x == int(x)
